@@ -11,6 +11,37 @@ AGG = {'FastOr', 'HeapOr', 'ParOr', 'ParHeapOr', 'FastAnd', 'ParAnd', 'HeapXor',
 TRF = {'FlipS', 'AddOffset', 'DenseRT', 'BitSetRT'}
 
 
+SER = {'Ser', 'Load', 'WriteFail', 'Freeze', 'FrozenRT', 'LoadLegal', 'DetachAll', 'Scribble'}
+C05_CLAUSES = {'write-error', 'size-mismatch', 'returned-count', 'writers-differ', 'end-of-stream', 'read-error', 'bytes-consumed',
+               'reader-position', 'failed-writer-not-reported', 'returned-more-than-written'}
+C06_CLAUSES = {'parse', 'cookie', 'offset-header-presence', 'chunk-count', 'keys', 'payload-order', 'cardinality-field',
+               'run-under-norun-cookie', 'offsets', 'layout', 'empty-chunk', 'payload-kind', 'cookie-choice', 'legal-stream-rejected'}
+
+
+def serial_family(v):
+    op, c, d = v['op'], v['clause'], v.get('detail')
+    if op in ('Freeze', 'FrozenRT'):
+        return 'C13'
+    if op == 'LoadLegal':
+        return 'C06'
+    if op in ('Load', 'WriteFail'):
+        return 'C05'
+    if op == 'Ser':
+        if c == 'listing':
+            return 'C06'
+        props = set()
+        if isinstance(d, list):
+            for x in d:
+                if x in C05_CLAUSES:
+                    props.add('C05')
+                if x in C06_CLAUSES:
+                    props.add('C06')
+        return '+'.join(sorted(props)) or 'C05'
+    if op in ('DetachAll', 'Scribble'):
+        return 'C08'
+    return None
+
+
 def family(op):
     if op in ALG: return 'C01'
     if op in MUT: return 'C02'
@@ -25,10 +56,14 @@ def attribute(v):
     """Which property a recorded deviation belongs to (None = latent/structural, not a verdict)."""
     c, op = v['clause'], v['op']
     if c in ('content', 'result', 'panic', 'listing', 'not-a-union-of-atoms', 'aux'):
+        if op in SER:
+            return serial_family(v)
         return family(op)
     if c == 'interference':
         if op in QRY or op in NBR:
             return 'C03'
+        if op == 'Scribble':
+            return 'C08'
         return 'C07'
     if c in ('argument-slice-modified', 'result-aliases-input', 'sharing-witnessed'):
         return 'C07'
@@ -46,6 +81,8 @@ def signature(prop, v):
     d = v.get('detail')
     if v['clause'] == 'validate' and isinstance(d, str):
         sig['detail'] = d
+    if v['clause'] == 'result' and isinstance(d, list):
+        sig['detail'] = ','.join(sorted(str(x) for x in d))
     return sig
 
 
@@ -58,6 +95,10 @@ REQUIRED_OPS = {
     'C15': ['NextValue', 'PreviousValue', 'NextAbsentValue', 'PreviousAbsentValue'],
     'C11': ['FastOr', 'HeapOr', 'ParOr', 'ParHeapOr', 'FastAnd', 'ParAnd', 'HeapXor', 'AndAny'],
     'C16': ['FlipS', 'AddOffset', 'DenseRT', 'BitSetRT'],
+    'C05': ['Ser', 'Load', 'WriteFail'],
+    'C06': ['Ser', 'LoadLegal'],
+    'C13': ['Freeze', 'FrozenRT'],
+    'C08': ['Load', 'FrozenRT', 'DetachAll', 'Scribble'],
 }
 
 
@@ -69,12 +110,14 @@ def mc_cfg(mode, struct, depth=1, maxlist=0, inv=True):
     s = 'SPECIFICATION Spec\nCONSTANTS\n  Mode = "%s"\n  Depth = %d\n  Struct = "%s"\n  MaxList = %d\n' % (mode, depth, struct, maxlist)
     if inv:
         s += 'INVARIANT TypeOK QueriesConsistent\nPROPERTY OnlyTargetChanges\n'
-    s += 'ACTION_CONSTRAINT EmitStep\nCONSTRAINT EmitHist\nCHECK_DEADLOCK FALSE\n'
+    else:
+        s += 'INVARIANT TypeOK\nPROPERTY OnlyTargetChanges\n'
+    s += 'ACTION_CONSTRAINT EmitStep\nCHECK_DEADLOCK FALSE\n'
     return s
 
 
-def M(name, mode, struct, depth=1, maxlist=0, sim=None, workers=1):
-    m = {'name': name, 'module': 'MCSet.tla', 'cfg_text': mc_cfg(mode, struct, depth, maxlist), 'workers': workers}
+def M(name, mode, struct, depth=1, maxlist=0, sim=None, workers=4):
+    m = {'name': name, 'module': 'MCSet.tla', 'cfg_text': mc_cfg(mode, struct, depth, maxlist, inv=(mode == 'step')), 'workers': workers}
     if sim:
         m['mode'] = 'simulate'
         m['sim'] = sim
@@ -203,4 +246,58 @@ def c14(tier):
     }
 
 
-PLANS = {'C01': c01, 'C02': c02, 'C03': c03, 'C15': c15, 'C11': c11, 'C16': c16, 'C07': c07, 'C09': c09, 'C14': c14}
+def MS(name, mode, struct):
+    return {'name': name, 'module': 'MCSet.tla', 'cfg_text': mc_cfg(mode, struct, 1, 0, inv=False), 'workers': 4}
+
+
+def c05(tier):
+    q = tier == 'quick'
+    return {
+        'rule': 'model: from every subset-state of 6 atoms, every writer x decode entry point x reader chunking x fresh/reused receiver x failing writers (exhaustive, TLC); replayed under concretisations x build recipes (incl. run chunks, <4 and >=4 chunks); plus randomized traces where serialized bitmaps come from arbitrary histories; byte accounting judged by RoaringSerial.tla',
+        'assumptions': ASSUME_SET + ['the independent portable-format parser in harness/serial32.go'],
+        'phases': [
+            {'kind': 'replay', 'model': MS('serial_S6', 'serial', 'S6'), 'kinds': ALLKINDS[:8], 'sample': 0.03 if q else 0.6},
+            {'kind': 'drive', 'profile': 'serial', 'traces': 160 if q else 3000, 'steps': 50},
+        ],
+    }
+
+
+def c06(tier):
+    q = tier == 'quick'
+    return {
+        'rule': 'write direction: library bytes -> independent parser -> field record judged by RoaringSerial.tla (cookie, count, run flags, keys, cardinality fields, offsets, payload kind) + decoded elements = content; read direction: TLC enumerates every subset of 4 atoms x 64 encoder policies (cookie choice, run-vs-native per chunk, run granularity) x 5 entry points; the harness encoder builds the bytes; the library must read exactly the set',
+        'assumptions': ASSUME_SET + ['the independent portable-format parser/encoder in harness/serial32.go encode my reading of RoaringFormatSpec'],
+        'phases': [
+            {'kind': 'replay', 'model': MS('legal_S4', 'legal', 'S4'), 'kinds': ['tiny', 'array', 'threshold', 'bitmap', 'run', 'chunky', 'mixed', 'top'],
+             'sample': 0.025 if q else 0.5},
+            {'kind': 'replay', 'model': MS('serial_S6', 'serial', 'S6'), 'kinds': ALLKINDS[:8], 'sample': 0.01 if q else 0.3, 'extra': ['-opfilter', 'ser']},
+            {'kind': 'drive', 'profile': 'legal', 'traces': 120 if q else 2500, 'steps': 40},
+            {'kind': 'drive', 'profile': 'serial', 'traces': 80 if q else 1500, 'steps': 40},
+        ],
+    }
+
+
+def c13(tier):
+    q = tier == 'quick'
+    return {
+        'rule': 'model as C05 (Freeze / FrozenRT calls); the three frozen writers compared byte for byte, sizes, too-small buffers, layout judged by RoaringSerial.tla from an independent frozen parser; frozen views then undergo mutations',
+        'assumptions': ASSUME_SET + ['the independent frozen-format parser in harness/serial32.go'],
+        'phases': [
+            {'kind': 'replay', 'model': MS('serial_S6', 'serial', 'S6'), 'kinds': ALLKINDS[:8], 'sample': 0.04 if q else 0.8, 'extra': ['-opfilter', 'frozen']},
+            {'kind': 'drive', 'profile': 'serial', 'traces': 160 if q else 3000, 'steps': 50},
+        ],
+    }
+
+
+def c08(tier):
+    q = tier == 'quick'
+    return {
+        'rule': 'zero-copy loads (FromBuffer, FromUnsafeBytes, FrozenView, FromDense without copy) followed by random histories on the loaded bitmap and on bitmaps derived from it; every caller buffer is hashed after every call (BufferImmutable); DetachAll then Scribble then further calls (DetachSevers)',
+        'assumptions': ASSUME_SET + ['buffer writes are observed by hashing after every call (a write that is undone within one call is invisible)'],
+        'phases': [
+            {'kind': 'drive', 'profile': 'zerocopy', 'traces': 240 if q else 4000, 'steps': 60},
+        ],
+    }
+
+
+PLANS = {'C05': c05, 'C06': c06, 'C13': c13, 'C08': c08, 'C01': c01, 'C02': c02, 'C03': c03, 'C15': c15, 'C11': c11, 'C16': c16, 'C07': c07, 'C09': c09, 'C14': c14}
